@@ -1214,6 +1214,142 @@ func TestTCPC10(t *testing.T) {
 	hx.Rapid(r, t, "tcp_stalled_reader", r.N(1, 4), genStall, cur(r, "tcp_stalled_reader", stallProp))
 }
 
+// ---------------------------------------------------------------- C08: a NOTIFICATION behind data the peer has not read yet
+
+// The remote has a tiny receive buffer and does not read for a while; the plugin writes
+// Updates x 4000 octets, which stay in corebgp's send queue. Then the remote sends a header
+// with a bad marker and starts reading: the NOTIFICATION (1,1) is behind the UPDATEs and has to
+// arrive - a connection reset before it shows up means corebgp's close threw the queued bytes
+// away. Timeouts are inconclusive; only a reset (or an orderly end) without the NOTIFICATION is
+// flagged.
+type c08Slow struct {
+	Updates int `json:"updates"`
+	RcvBuf  int `json:"rcvbuf"`
+	WaitMs  int `json:"wait_ms"` // between the last WriteUpdate and the faulty header
+}
+
+func c08SlowProp(c c08Slow) hx.Verdict {
+	v := hx.Verdict{Class: "inconclusive"}
+	s, err := newServer("10.255.0.1", []string{addr("h1") + ":0"})
+	if err != nil {
+		v.Class = "skipped-listen-failed"
+		return v
+	}
+	remote := "h61"
+	if err := s.srv.AddPeer(corebgp.PeerConfig{RemoteAddress: netip.MustParseAddr(addr(remote)), LocalAS: 64512, RemoteAS: 64513}, s.plug, corebgp.WithPassive()); err != nil {
+		v.Dev = hx.Devf("setup", "%v", err)
+		return v
+	}
+	s.serve()
+	defer func() {
+		if !s.closeBounded(20*time.Second) && v.Dev == nil {
+			v.Dev = hx.Devf("close-blocked", "Server.Close did not return within 20 s")
+		}
+	}()
+	la, _ := net.ResolveTCPAddr("tcp", net.JoinHostPort(addr(remote), "0"))
+	dl := net.Dialer{LocalAddr: la, Timeout: 2 * time.Second, Control: func(network, address string, rc syscall.RawConn) error {
+		return rc.Control(func(fd uintptr) {
+			syscall.SetsockoptInt(int(fd), syscall.SOL_SOCKET, syscall.SO_RCVBUF, c.RcvBuf) // nolint: errcheck
+		})
+	}}
+	conn, err := dl.Dial("tcp", net.JoinHostPort(addr("h1"), portOf(s.lis[0])))
+	if err != nil {
+		v.Class = "dial-failed"
+		return v
+	}
+	defer conn.Close()
+	if err := handshake(conn, 64513, 90, 0x0a000002); err != nil {
+		v.Class = "inconclusive-handshake"
+		return v
+	}
+	peer := netip.MustParseAddr(addr(remote)).String()
+	if !waitFor(2*time.Second, func() bool { _, ok := s.plug.writers.Load(peer); return ok }) {
+		v.Class = "inconclusive-no-writer"
+		return v
+	}
+	wr, _ := s.plug.writers.Load(peer)
+	wrote := make(chan int, 1)
+	go func() {
+		n := 0
+		for k := 0; k < c.Updates; k++ {
+			b := make([]byte, 4000)
+			b[0] = byte(k)
+			if wr.(corebgp.UpdateMessageWriter).WriteUpdate(b) != nil {
+				break
+			}
+			n++
+		}
+		wrote <- n
+	}()
+	n := -1
+	select {
+	case n = <-wrote:
+	case <-time.After(3 * time.Second):
+	}
+	if n != c.Updates {
+		// the writers are stuck behind the closed window (or failed): another story (C10's stalled reader)
+		v.Class = "inconclusive-writes-not-accepted"
+		// let them go
+		go func() {
+			buf := make([]byte, 65536)
+			for {
+				conn.SetReadDeadline(time.Now().Add(5 * time.Second))
+				if _, err := conn.Read(buf); err != nil {
+					return
+				}
+			}
+		}()
+		return v
+	}
+	time.Sleep(time.Duration(c.WaitMs) * time.Millisecond)
+	bad := wire.Keepalive()
+	bad[3] = 0
+	if _, err := conn.Write(bad); err != nil {
+		v.Class = "inconclusive-write"
+		return v
+	}
+	upd, sawNotif := 0, false
+	var endErr error
+	for {
+		typ, body, err := readMsg(conn, 10*time.Second)
+		if err != nil {
+			endErr = err
+			break
+		}
+		switch typ {
+		case wire.TypeUpdate:
+			upd++
+		case wire.TypeNotification:
+			if nf, _ := wire.ParseNotif(body); nf.Code == 1 && nf.Sub == 1 {
+				sawNotif = true
+			}
+		}
+		if sawNotif {
+			break
+		}
+	}
+	switch {
+	case sawNotif:
+		v.Class = "notification-behind-unread-data-seen"
+		v.NT = fmt.Sprintf("%+v", c)
+	case errors.Is(endErr, syscall.ECONNRESET) || errors.Is(endErr, io.EOF) || errors.Is(endErr, io.ErrUnexpectedEOF):
+		v.Class = "notification-behind-unread-data-seen"
+		v.NT = fmt.Sprintf("%+v", c)
+		v.Dev = hx.Devf("notification-lost", "%d UPDATEs of 4000 octets were accepted by WriteUpdate while the peer (SO_RCVBUF %d) was not reading; after a header with a bad marker the peer read %d UPDATEs and then %v - the Connection Not Synchronized NOTIFICATION that corebgp wrote behind them never arrived", c.Updates, c.RcvBuf, upd, endErr)
+	default:
+		v.Class = "inconclusive-timeout"
+	}
+	return v
+}
+
+func TestTCPC08(t *testing.T) {
+	r := hx.Start(t, "C08")
+	defer r.Finish(t)
+	hx.Rapid(r, t, "tcp_notification_behind_unread_data", r.N(3, 24), func(rt *rapid.T) c08Slow {
+		return c08Slow{Updates: rapid.IntRange(4, 10).Draw(rt, "updates"), RcvBuf: []int{2048, 4096}[rapid.IntRange(0, 1).Draw(rt, "rcvbuf")], WaitMs: []int{20, 100, 300}[rapid.IntRange(0, 2).Draw(rt, "wait")]}
+	}, cur(r, "tcp_notification_behind_unread_data", c08SlowProp))
+}
+
 func TestTCPC05(t *testing.T) {
 	r := hx.Start(t, "C05")
 	defer r.Finish(t)
